@@ -96,6 +96,10 @@ package encoding
 //@   instance res1s_w9: resolution == 1000000000 && width == 9
 //@   instance res250ms_w17: resolution == 250000000 && width == 17
 //@   instance res3s_w9: resolution == 3000000000 && width == 9
+//@   instance res1m_w17: resolution == 60000000000 && width == 17
+//@   instance res1s_w17: resolution == 1000000000 && width == 17
+//@   instance res1h_w9: resolution == 3600000000000 && width == 9
+//@   instance res5s_w9: resolution == 5000000000 && width == 9
 //@   ensures origin: len(result) > 0 ==> obj(result) == obj(seq) || fresh(result)
 //@   ensures has_period: len(result) > 0 && len(seq) > 8 ==> len(result) > 8
 //@   ensures until_bound: len(result) > 0 && abs(until) != 0 ==> untilOf(result) <= abs(until)
@@ -145,6 +149,8 @@ package encoding
 //@   loop 0 decreases overlapPeriods - i
 //@   instance res1s_w9: resolution == 1000000000 && e.EncodedWidth() == 9
 //@   instance res250ms_w17: resolution == 250000000 && e.EncodedWidth() == 17
+//@   instance res1m_w17: resolution == 60000000000 && e.EncodedWidth() == 17
+//@   instance res1h_w9: resolution == 3600000000000 && e.EncodedWidth() == 9
 //@   nopanic
 
 //@ func NewSequence
@@ -188,6 +194,8 @@ package encoding
 //@   loop 0 modifies result[8:len(result)]
 //@   instance s1: resolution == 1000000000 && otherResolution == 1000000000 && ex.EncodedWidth() == 9 && otherEx.EncodedWidth() == 9
 //@   instance s3: resolution == 3000000000 && otherResolution == 1000000000 && ex.EncodedWidth() == 9 && otherEx.EncodedWidth() == 9
+//@   instance s5: resolution == 5000000000 && otherResolution == 1000000000 && ex.EncodedWidth() == 9 && otherEx.EncodedWidth() == 9
+//@   instance s60w17: resolution == 60000000000 && otherResolution == 1000000000 && ex.EncodedWidth() == 17 && otherEx.EncodedWidth() == 17
 //@   nopanic own
 
 //@ func (Sequence).UpdateValueAtOffset
@@ -219,4 +227,5 @@ package encoding
 //@   ensures others_kept: T > tb ==> forall k in 0..n :: U - k*resolution > tb && U - k*resolution != T ==> (let k2 = (untilOf(result) - (U - k*resolution)) / resolution in 0 <= k2 && k2 < periodsOf(result, w) && untilOf(result) - k2*resolution == U - k*resolution && (forall j in 0..w :: result[8+k2*w+j] == old(seq[8+k*w+j])))
 //@   ensures expired_point: T <= tb ==> len(result) == 0 || (obj(result) == obj(seq) || fresh(result))
 //@   instance res1s_w9: resolution == 1000000000 && e.EncodedWidth() == 9
+//@   instance res1m_w17: resolution == 60000000000 && e.EncodedWidth() == 17
 //@   nopanic
